@@ -78,7 +78,7 @@ impl P32E2 {
                 Self::MIN_POSITIVE.neg()
             }
         } else {
-            Self::from_bits(crate::convert::convert_float!(P32E2, f64, ui))
+            Self::from_bits(crate::convert::convert_float!(P32E2, f64, ui, u128, i128))
         }
     }
 
